@@ -446,20 +446,20 @@ pub fn run_record(pool: &Pool, rng: &mut Rng, kind: &str, a: &Value) -> Value {
 					send_args: Some(InitTxSendArgs { dest: "http://dest".into(), post_tx: true, fluff: false, skip_tor: true }),
 				}),
 			};
-			let c = Context {
-				parent_key_id: ExtKeychain::derive_key_id(2, 1, 0, 0, 0),
-				sec_key: sk.clone(),
-				sec_nonce: sn.clone(),
-				initial_sec_key: mat::secret(&pool.secp, rng),
-				initial_sec_nonce: mat::secret(&pool.secp, rng),
-				output_ids: ids(rng, a["nout"].as_u64().unwrap_or(0)),
-				input_ids: ids(rng, a["nin"].as_u64().unwrap_or(0)),
-				amount: tag_val(&s(a, "amount")),
-				fee: opt_tag(&s(a, "fee")).map(fee_fields),
-				payment_proof_derivation_index: opt_tag32(&s(a, "pidx")),
-				late_lock_args: late,
-				calculated_excess: if s(a, "excess") == "some" { Some(pool.commit(rng)) } else { None },
-			};
+			// built from Context::new and field assignments (not a struct literal) so that a field
+			// added to the stored context upstream does not break the harness build
+			let mut c = Context::new(&pool.secp, &ExtKeychain::derive_key_id(2, 1, 0, 0, 0), false, true);
+			c.sec_key = sk.clone();
+			c.sec_nonce = sn.clone();
+			c.initial_sec_key = mat::secret(&pool.secp, rng);
+			c.initial_sec_nonce = mat::secret(&pool.secp, rng);
+			c.output_ids = ids(rng, a["nout"].as_u64().unwrap_or(0));
+			c.input_ids = ids(rng, a["nin"].as_u64().unwrap_or(0));
+			c.amount = tag_val(&s(a, "amount"));
+			c.fee = opt_tag(&s(a, "fee")).map(fee_fields);
+			c.payment_proof_derivation_index = opt_tag32(&s(a, "pidx"));
+			c.late_lock_args = late;
+			c.calculated_excess = if s(a, "excess") == "some" { Some(pool.commit(rng)) } else { None };
 			let r = guarded(|| {
 				let (d, wire) = store_round_trip(&c)?;
 				let (dec, h) = ctx_alpha(&d);
